@@ -155,7 +155,10 @@ class PseudotrajCheck(Check):
             "single atom, linear, planar, generic) over grid arrays (real FullGrid arrays or arbitrary rows: unit "
             "quaternions of either sign incl. identity, positions incl. 0 and ~100 A); the generators are advanced one "
             "frame at a time in seeded order, cancelled mid-way and restarted, drained via get_pt_as_universe and read "
-            "in random order twice, one-molecule views taken, global RNG perturbed in between. Every frame is compared "
+            "in random order twice, one-molecule views taken, PtWriter driven to memory / .xtc / a directory of .xyz files "
+            "(optionally write_structure first), global RNG perturbed in between; a few yielded frames are kept and judged "
+            "again at the end. Molecules may carry a massless virtual site; rows include rotations at the boundary of the "
+            "identity and of a half turn. Every frame is compared "
             "atom by atom (1e-4 A) with x' = R(q_k)(x_ref - com) + com + p_k, R by an independent formula. "
             "Non-trivial: >=2 tasks interleaved or a cancel/drain/fault happened, and >=2 frames checked. Distinct = "
             "distinct hash of (molecule kinds, #rows bucket, schedule of (op, task)).")
@@ -696,7 +699,9 @@ class AssignmentCheck(Check):
     prop = "C11"
     engine = "walker"
     rule = ("one run = one trajectory of a simulated rigid-body walker (seeded random walk on SE(3), i.i.d. placements, "
-            "grid-centre frames, excursions beyond the outer shell; optionally a constant shift of the whole system) of "
+            "grid-centre frames, excursions beyond the outer shell; optionally a constant shift of the whole system, a "
+            "periodic box on the trajectory, the cursor left on a later frame; 1-400 frames, rarely 10050-12000; grids "
+            "also with generated, almost regular radial lists) of "
             "a second molecule with three distinct principal moments (water or generated, planar included) around a "
             "first molecule, assigned with AssignmentTool on a real FullGrid array through SimPool (seeded worker "
             "count, chunk size, chunk order, duplicated chunk delivery); or one back-assignment of the library's own "
